@@ -270,6 +270,25 @@ class E3Check(Check):
                                               "mix": self.mix,
                                               "objects": [A, B],
                                               "steps": steps})
+        # every ordered pair of mutators, with a view materialised in between
+        for seed in seeds:
+            for ctor in ("se3", "xyzquat", "all"):
+                A = {"ctor": ctor, "stamped": True, "n": 8,
+                     "data_seed": seed + 3, "profile": prof}
+                B = {"ctor": "xyzquat", "stamped": True, "n": 8,
+                     "data_seed": seed + 4, "profile": prof}
+                for i1, M1 in enumerate(SCHEMA_MUTATORS):
+                    for i2, M2 in enumerate(SCHEMA_MUTATORS):
+                        if tier == "quick" and (i1 + i2 + seed) % 2:
+                            continue
+                        view = SCHEMA_VIEWS[(i1 * 7 + i2) % 4]
+                        steps = [mutator_step(M1, "o0", "o1", "s0"),
+                                 {"op": "read", "uid": "r0", "obj": "o0",
+                                  "view": view},
+                                 mutator_step(M2, "o0", "o1", "s1"),
+                                 {"op": "deepcopy", "uid": "d0", "obj": "o0"}]
+                        cases.append({"kind": "schema_pair", "mix": self.mix,
+                                      "objects": [A, B], "steps": steps})
         # two windows of one trajectory that share their boundary stamp, merged
         for seed in seeds:
             A = {"ctor": "xyzquat", "stamped": True, "n": 9,
